@@ -52,7 +52,9 @@ pub trait MNT6Config: 'static + Sized {
         let pairs = a
             .into_iter()
             .zip_eq(b)
-            .map(|(a, b)| (a.into(), b.into()))
+            .map(|(a, b)| -> (G1Prepared<Self>, G2Prepared<Self>) { (a.into(), b.into()) })
+            // a pair with the identity on either side contributes one
+            .filter(|(a, b)| !a.is_zero() && !b.is_zero())
             .collect::<Vec<_>>();
         let result = ark_std::cfg_into_iter!(pairs)
             .map(|(a, b)| MNT6::ate_miller_loop(&a, &b))
